@@ -142,6 +142,11 @@ Locatable(sp) == /\ \A k \in 1..Len(sp) : ~IsLost(sp[k]) /\ sp[k][3] = 0
                  /\ (IF Len(sp) = 0 THEN TRUE ELSE sp[1][1] <= sp[Len(sp)][2])
 DoBuild(c)    == /\ (c \in LocationContainers => Locatable(m.spans))
                  /\ Op("Build", <<c>>, Val(E0, P0))
+(* the caller keeps the container it handed over and later writes into it in place (clears the  *)
+(* list, overwrites the array): a stuttering step for the map that was built from it            *)
+DoCallerWrites(c) == /\ c \in {"list", "from_spans_list", "locations_list", "locations_array"}
+                     /\ (c \in LocationContainers => Locatable(m.spans))
+                     /\ Op("CallerWritesArgument", <<c>>, Val(E0, P0))
 (* get_coordinates(): (start, end) of every span that is not lost, in span order *)
 CoordsOf(sp)  == LET keep == SelectSeq(sp, LAMBDA x : ~IsLost(x))
                  IN [k \in 1..Len(keep) |-> <<keep[k][1], keep[k][2]>>]
@@ -179,7 +184,7 @@ Init == /\ \E P \in 0..MaxP : \E sp \in SpanLists(P, MaxSpans) : m = [spans |-> 
 
 Next == /\ out = None      \* result states have no successors
         /\ \/ DoDenote \/ DoCoords
-           \/ \E c \in SpanContainers \cup LocationContainers : DoBuild(c)
+           \/ \E c \in SpanContainers \cup LocationContainers : DoBuild(c) \/ DoCallerWrites(c)
            \/ DoCovered \/ DoInverse \/ DoShadow \/ DoNucRev \/ DoGaps \/ DoNongap
            \/ DoWithoutGaps \/ DoZeroed \/ DoCovering
            \/ \E k \in Scales : DoScale(k)
